@@ -11,8 +11,8 @@ edited site breaks `C22_all_fatal_sites_classified`, and with it the check.
 
 NOT proved (see the end of the file): that `compiler.Compile` itself never panics — the sites classified
 `reportedInvariant`, implicit run-time panics and non-termination are covered by the correspondence runs of
-harness/cmd/tmh/c22.go only, and three crashes are known (sites classified `reachable`, plus the index panic
-`[C22-addtypes-minus-one]` which is not an explicit site).
+harness/cmd/tmh/c22.go only, and crashes are known (the site classified `reachable`, plus the index panic
+`[C22-addtypes-minus-one]` which is not an explicit site; a third one, `[C22-bison-stringify]`, is fixed).
 -/
 import TmVerif.Facts.Generated
 import TmVerif.Facts.ExpectC22
@@ -265,8 +265,8 @@ theorem C22_discharged_sites_cite_lemmas :
 theorem C22_classification_counts :
     (fatalExpectations.map (fatalClassTag ·.cls)).count "discharged" = 9 ∧
     (fatalExpectations.map (fatalClassTag ·.cls)).count "reported-invariant" = 33 ∧
-    (fatalExpectations.map (fatalClassTag ·.cls)).count "reachable" = 2 ∧
-    (fatalExpectations.map (fatalClassTag ·.cls)).count "outside-compile" = 10 := by decide
+    (fatalExpectations.map (fatalClassTag ·.cls)).count "reachable" = 1 ∧
+    (fatalExpectations.map (fatalClassTag ·.cls)).count "outside-compile" = 11 := by decide
 
 /-! ## What is not proved
 
@@ -274,7 +274,7 @@ The full statement of the property — for every text `compiler.Compile` termina
 about the real implementation; no Lean model of `Compile` exists, so it is not a theorem here. What the
 theorems above give: the position arithmetic is right for all inputs (Part 1), 9 of the 54 explicit crash sites
 are dead (Parts 2 and 3), and the inventory is complete and current (Part 3). The 33 `reportedInvariant` sites,
-implicit run-time panics and termination rest on the correspondence runs; the 2 `reachable` sites and the index
-panic `[C22-addtypes-minus-one]` refute crash freedom for the unfixed tree. -/
+implicit run-time panics and termination rest on the correspondence runs; the `reachable` site
+`[C22-lalrk-optimize]` and the index panic `[C22-addtypes-minus-one]` refute crash freedom for the unfixed tree. -/
 
 end TmVerif.C22
